@@ -65,6 +65,7 @@ class FnInfo:
         self.unproved_from_line = None
         self.unproved_specs = []
         self.unproved_regions = []
+        self.lost_obligations = []
         self.unproved_end_anchor = None
         self.unproved_to_line = None
 
@@ -220,6 +221,10 @@ def build_fn(unit, file_spec, item_spec, opts, sections, log, probes=False):
                 # a sub only makes a construct ingestible; if the construct is gone and Verus still ingests the
                 # function, nothing is lost for the proof
                 info.lost_subs.append("sub `%s` matched nothing" % m.group(1))
+                if _count_asserts(m.group(2)):
+                    # ... unless the replacement carries an obligation of the contract
+                    info.lost.append("sub `%s` matched nothing" % m.group(1))
+                    info.lost_obligations.append("the assert(s) carried by sub `%s`" % m.group(1))
             log.hit("R8 per-function substitution `%s` => `%s`" % (m.group(1), m.group(2)), n)
     # leading attributes kept by R1 (derive(Debug), repr) stay in front of the item
     lead = ""
@@ -361,11 +366,12 @@ def build_fn(unit, file_spec, item_spec, opts, sections, log, probes=False):
             start = pos + 1
             cnt += 1
         total = text.count(anchor)
-        if pos < 0:
-            info.lost.append("anchor `%s`#%d not found" % (anchor, occ))
-            continue
-        if m.group(3) is None and total != 1:
-            info.lost.append("anchor `%s` occurs %d times" % (anchor, total))
+        if pos < 0 or (m.group(3) is None and total != 1):
+            info.lost.append(("anchor `%s`#%d not found" % (anchor, occ)) if pos < 0 else ("anchor `%s` occurs %d times" % (anchor, total)))
+            # in-body obligations (assert) that could not be placed: the function can no longer be reported as proved
+            na = sum(_count_asserts(b) for b in secd[key])
+            if na:
+                info.lost_obligations.append("%d assert(s) of the section %s `%s`" % (na, where, anchor))
             continue
         for body in secd[key]:
             nproof += 1
